@@ -15,6 +15,7 @@ package io
 //@ ensures[enc1] result == 1 ==> data[0] == val
 //@ ensures[enc3] result == 3 ==> data[0] == 0xfd && data[1] + data[2]*256 == val
 //@ ensures[enc5] result == 5 ==> data[0] == 0xfe && data[1] + data[2]*256 + data[3]*65536 + data[4]*16777216 == val
+//@ ensures[enc9] result == 9 ==> data[0] == 0xff && data[1] + data[2]*256 + data[3]*65536 + data[4]*16777216 + data[5]*4294967296 + data[6]*1099511627776 + data[7]*281474976710656 + data[8]*72057594037927936 == val
 
 //@ spec le16(s seq, p int) int = s[p] + s[p+1]*256
 //@ spec le32(s seq, p int) int = s[p] + s[p+1]*256 + s[p+2]*65536 + s[p+3]*16777216
@@ -45,3 +46,112 @@ package io
 //@ ensures[ok] old(r.Err) == nil && old(r.r.pos) + 1 <= len(r.r.in) ==> r.Err == nil && r.r.pos == old(r.r.pos) + 1 && result == r.r.in[old(r.r.pos)]
 //@ ensures[short] old(r.Err) == nil && old(r.r.pos) + 1 > len(r.r.in) ==> r.Err != nil && result == 0
 //@ ensures[pos] old(r.r.pos) <= r.r.pos && r.r.pos <= len(r.r.in)
+
+//@ func (*BinReader).ReadU32LE
+//@ requires validR(r)
+//@ modifies r.Err, r.uv, r.r.pos
+//@ ensures[sticky] old(r.Err) != nil ==> result == 0 && r.Err == old(r.Err) && r.r.pos == old(r.r.pos)
+//@ ensures[ok] old(r.Err) == nil && old(r.r.pos) + 4 <= len(r.r.in) ==> r.Err == nil && r.r.pos == old(r.r.pos) + 4 && result == le32(r.r.in, old(r.r.pos))
+//@ ensures[short] old(r.Err) == nil && old(r.r.pos) + 4 > len(r.r.in) ==> r.Err != nil && result == 0
+//@ ensures[pos] old(r.r.pos) <= r.r.pos && r.r.pos <= len(r.r.in)
+
+//@ func (*BinReader).ReadU16LE
+//@ requires validR(r)
+//@ modifies r.Err, r.uv, r.r.pos
+//@ ensures[sticky] old(r.Err) != nil ==> result == 0 && r.Err == old(r.Err) && r.r.pos == old(r.r.pos)
+//@ ensures[ok] old(r.Err) == nil && old(r.r.pos) + 2 <= len(r.r.in) ==> r.Err == nil && r.r.pos == old(r.r.pos) + 2 && result == le16(r.r.in, old(r.r.pos))
+//@ ensures[short] old(r.Err) == nil && old(r.r.pos) + 2 > len(r.r.in) ==> r.Err != nil && result == 0
+//@ ensures[pos] old(r.r.pos) <= r.r.pos && r.r.pos <= len(r.r.in)
+
+//@ func (*BinReader).ReadU16BE
+//@ requires validR(r)
+//@ modifies r.Err, r.uv, r.r.pos
+//@ ensures[sticky] old(r.Err) != nil ==> result == 0 && r.Err == old(r.Err) && r.r.pos == old(r.r.pos)
+//@ ensures[ok] old(r.Err) == nil && old(r.r.pos) + 2 <= len(r.r.in) ==> r.Err == nil && r.r.pos == old(r.r.pos) + 2 && result == be16(r.r.in, old(r.r.pos))
+//@ ensures[short] old(r.Err) == nil && old(r.r.pos) + 2 > len(r.r.in) ==> r.Err != nil && result == 0
+//@ ensures[pos] old(r.r.pos) <= r.r.pos && r.r.pos <= len(r.r.in)
+
+//@ func (*BinReader).ReadBool
+//@ requires validR(r)
+//@ modifies r.Err, r.uv, r.r.pos
+//@ ensures[sticky] old(r.Err) != nil ==> result == false && r.Err == old(r.Err) && r.r.pos == old(r.r.pos)
+//@ ensures[ok] old(r.Err) == nil && old(r.r.pos) + 1 <= len(r.r.in) ==> r.Err == nil && r.r.pos == old(r.r.pos) + 1 && result == (r.r.in[old(r.r.pos)] != 0)
+//@ ensures[short] old(r.Err) == nil && old(r.r.pos) + 1 > len(r.r.in) ==> r.Err != nil && result == false
+//@ ensures[canonical] old(r.Err) == nil && r.Err == nil ==> r.r.in[old(r.r.pos)] == ite(result, 1, 0)
+//@ ensures[pos] old(r.r.pos) <= r.r.pos && r.r.pos <= len(r.r.in)
+
+//@ spec decvar(s seq, p int) int = ite(s[p] < 0xfd, s[p], ite(s[p] == 0xfd, le16(s, p+1), ite(s[p] == 0xfe, le32(s, p+1), le64(s, p+1))))
+//@ spec declen(s seq, p int) int = ite(s[p] < 0xfd, 1, ite(s[p] == 0xfd, 3, ite(s[p] == 0xfe, 5, 9)))
+
+//@ func (*BinReader).ReadVarUint
+//@ requires validR(r)
+//@ modifies r.Err, r.uv, r.r.pos
+//@ ensures[sticky] old(r.Err) != nil ==> result == 0 && r.Err == old(r.Err) && r.r.pos == old(r.r.pos)
+//@ ensures[ok] r.Err == nil ==> old(r.r.pos) + declen(r.r.in, old(r.r.pos)) <= len(r.r.in) && result == decvar(r.r.in, old(r.r.pos)) && r.r.pos == old(r.r.pos) + declen(r.r.in, old(r.r.pos))
+//@ ensures[short] old(r.Err) == nil && (old(r.r.pos) >= len(r.r.in) || old(r.r.pos) + declen(r.r.in, old(r.r.pos)) > len(r.r.in)) ==> r.Err != nil && result == 0
+//@ ensures[canonical] r.Err == nil ==> varsize(result) == r.r.pos - old(r.r.pos)
+//@ ensures[pos] old(r.r.pos) <= r.r.pos && r.r.pos <= len(r.r.in)
+
+//@ func getVarIntSize
+//@ ensures[size] 0 <= value && value <= 0xffffffff ==> result == varsize(value)
+
+//@ spec validW(w *BinWriter) bool = w != nil && w.w != nil
+//@ spec ext(n seq, o seq, k int) bool = len(n) == len(o) + k && forall(i, 0, len(o), n[i] == o[i])
+
+//@ func (*BinWriter).WriteBytes
+//@ requires validW(w)
+//@ modifies w.Err, w.w.out
+//@ ensures[sticky] old(w.Err) != nil ==> w.Err == old(w.Err) && w.w.out == old(w.w.out)
+//@ ensures[ok] w.Err == nil ==> ext(w.w.out, old(w.w.out), len(b)) && forall(i, 0, len(b), w.w.out[old(len(w.w.out))+i] == b[i])
+//@ ensures[grow] ext(w.w.out, old(w.w.out), len(w.w.out) - old(len(w.w.out))) && len(w.w.out) >= old(len(w.w.out))
+
+//@ func (*BinWriter).WriteU64LE
+//@ requires validW(w)
+//@ modifies w.Err, w.w.out, w.uv
+//@ ensures[sticky] old(w.Err) != nil ==> w.Err == old(w.Err) && w.w.out == old(w.w.out)
+//@ ensures[ok] w.Err == nil ==> ext(w.w.out, old(w.w.out), 8) && le64(w.w.out, old(len(w.w.out))) == u64
+
+//@ func (*BinWriter).WriteU32LE
+//@ requires validW(w)
+//@ modifies w.Err, w.w.out, w.uv
+//@ ensures[sticky] old(w.Err) != nil ==> w.Err == old(w.Err) && w.w.out == old(w.w.out)
+//@ ensures[ok] w.Err == nil ==> ext(w.w.out, old(w.w.out), 4) && le32(w.w.out, old(len(w.w.out))) == u32
+
+//@ func (*BinWriter).WriteU16LE
+//@ requires validW(w)
+//@ modifies w.Err, w.w.out, w.uv
+//@ ensures[sticky] old(w.Err) != nil ==> w.Err == old(w.Err) && w.w.out == old(w.w.out)
+//@ ensures[ok] w.Err == nil ==> ext(w.w.out, old(w.w.out), 2) && le16(w.w.out, old(len(w.w.out))) == u16
+
+//@ func (*BinWriter).WriteU16BE
+//@ requires validW(w)
+//@ modifies w.Err, w.w.out, w.uv
+//@ ensures[sticky] old(w.Err) != nil ==> w.Err == old(w.Err) && w.w.out == old(w.w.out)
+//@ ensures[ok] w.Err == nil ==> ext(w.w.out, old(w.w.out), 2) && be16(w.w.out, old(len(w.w.out))) == u16
+
+//@ func (*BinWriter).WriteB
+//@ requires validW(w)
+//@ modifies w.Err, w.w.out, w.uv
+//@ ensures[sticky] old(w.Err) != nil ==> w.Err == old(w.Err) && w.w.out == old(w.w.out)
+//@ ensures[ok] w.Err == nil ==> ext(w.w.out, old(w.w.out), 1) && w.w.out[old(len(w.w.out))] == u8
+
+//@ func (*BinWriter).WriteBool
+//@ requires validW(w)
+//@ modifies w.Err, w.w.out, w.uv
+//@ ensures[sticky] old(w.Err) != nil ==> w.Err == old(w.Err) && w.w.out == old(w.w.out)
+//@ ensures[ok] w.Err == nil ==> ext(w.w.out, old(w.w.out), 1) && w.w.out[old(len(w.w.out))] == ite(b, 1, 0)
+
+//@ func (*BinWriter).WriteVarUint
+//@ requires validW(w)
+//@ modifies w.Err, w.w.out, w.uv
+//@ ensures[sticky] old(w.Err) != nil ==> w.Err == old(w.Err) && w.w.out == old(w.w.out)
+//@ ensures[size] w.Err == nil ==> ext(w.w.out, old(w.w.out), varsize(val))
+//@ ensures[roundtrip] w.Err == nil ==> decvar(w.w.out, old(len(w.w.out))) == val && declen(w.w.out, old(len(w.w.out))) == varsize(val)
+
+//@ func (*BinWriter).WriteVarBytes
+//@ requires validW(w)
+//@ modifies w.Err, w.w.out, w.uv
+//@ ensures[sticky] old(w.Err) != nil ==> w.Err == old(w.Err) && w.w.out == old(w.w.out)
+//@ ensures[size] w.Err == nil ==> ext(w.w.out, old(w.w.out), varsize(len(b)) + len(b))
+//@ ensures[prefix] w.Err == nil ==> decvar(w.w.out, old(len(w.w.out))) == len(b)
+//@ ensures[body] w.Err == nil ==> forall(i, 0, len(b), w.w.out[old(len(w.w.out)) + varsize(len(b)) + i] == b[i])
